@@ -234,40 +234,10 @@ def comm(op):
     return op not in ('-', '/', '%')
 
 
-def left_paren(table, j):
-    """does the real printer parenthesise the left operand of binary node j? (the three-way Binary rule)"""
-    p, pa = json_prec(table, j), json_prec(table, j[2])
-    return False if pa == p else p <= pa
-
-
-def right_paren(table, j):
-    p, pa, pb = json_prec(table, j), json_prec(table, j[2]), json_prec(table, j[3])
-    if pa == p:
-        return p <= pb
-    if pb == p and comm(j[1]):
-        return False
-    return p <= pb
-
-
-def ends_field(table, j):
-    """does the text the real printer produces for j end with a field name?"""
-    k = j[0]
-    if k in ('field', 'method'):
-        return j[3] is None
-    if k == 'bin':
-        return (not right_paren(table, j)) and ends_field(table, j[3])
-    if k == 'un':
-        return (not json_prec(table, j[2]) > json_prec(table, j)) and ends_field(table, j[2])
-    if k == 'lambda':
-        return (not json_prec(table, j[2]) > json_prec(table, j)) and ends_field(table, j[2])
-    return False
-
-
 def node_classes(table, j):
-    """classes of the node itself: subset of {'K1','K2','K3','K6'}"""
+    """OPEN classes of the node itself: subset of {'K1','K3'} (twin of k1 / k3 in coq/theories/C08/Model.v).
+    K2 (unary under unary) and K6 (field name before `<`) were repaired by 98d650f / 98c0b1b."""
     out = set()
-    if j[0] == 'un' and j[2][0] == 'un':
-        out.add('K2')
     if j[0] == 'bin':
         o, a, b = j[1], j[2], j[3]
         p = json_prec(table, j)
@@ -279,8 +249,6 @@ def node_classes(table, j):
                 out.add('K3')
             if b[0] == 'bin' and b[1] in ('*', '/', '%'):
                 out.add('K3')
-        if o == '<' and not left_paren(table, j) and ends_field(table, a):
-            out.add('K6')
     return out
 
 
@@ -301,14 +269,12 @@ def tree_classes(table, j):
     out = set()
     for n in subtrees(j):
         out |= node_classes(table, n)
-        if n[0] == 'str' and '"' in n[1]:
-            out.add('K4')
     return out
 
 
 def known_c08_model(table, e):
     """known_C08 on a model tree (through its JSON form)"""
-    return bool(tree_classes(table, to_json(e)) & {'K1', 'K2', 'K3', 'K6'})
+    return bool(tree_classes(table, to_json(e)) & {'K1', 'K3'})
 
 
 # ----------------------------------------------------------------------------------------------------------------------
@@ -414,7 +380,7 @@ class ModGen:
             return rng.pick(['true', 'false'])
         if r < 9:
             s = rng.pick(['', 'a', 'hello world', 'tab\\t', 'nl\\n', 'back\\\\slash', 'café', '`x${y}`', "it's"])
-            if 'K4' not in self.avoid and rng.chance(1, 6):
+            if 'K4' not in self.avoid and rng.chance(1, 4):
                 s = rng.pick(['say \\"hi\\"', '\\"', 'a\\\\\\"b'])
             return '"%s"' % s
         if r == 9:
@@ -569,7 +535,7 @@ class ModGen:
 
 def gen_module(rng, depth=3, avoid=None):
     if avoid is None:
-        avoid = set() if rng.chance(1, 6) else ({'K4', 'K7'} if rng.chance(4, 5) else {'K7'})
+        avoid = set() if rng.chance(1, 6) else {'K7'}
     return ModGen(rng, avoid).module(depth)
 
 
